@@ -56,6 +56,10 @@ impl MemcStore {
         let mut hasher = DefaultHasher::new();
         key.hash(&mut hasher);
         let stripe = (hasher.finish() as usize) % KEY_LOCK_STRIPES;
+        #[cfg(memcrs_verif)]
+        crate::verif::yield_point("memc.lock_key", Some(key.as_ref()), &|| {
+            self.key_locks[stripe].try_lock().is_err()
+        });
         // the lock guards no data: a poisoned one is as good as new
         self.key_locks[stripe]
             .lock()
@@ -210,6 +214,10 @@ impl MemcStore {
 
     pub fn flush(&self, header: Meta) {
         // a flush concerns every key: all stripes, always in the same order
+        #[cfg(memcrs_verif)]
+        crate::verif::yield_point("memc.lock_all", None, &|| {
+            self.key_locks.iter().any(|lock| lock.try_lock().is_err())
+        });
         let _key_locks: Vec<MutexGuard<'_, ()>> = self
             .key_locks
             .iter()
